@@ -1,7 +1,7 @@
 // shared trusted prelude of the handler-layer units: core part + opaque State / ObjectId / ServiceInfo
 //@include _shared/handler_prelude_core.rs
 opaque!(ServiceInfo);
-opaque!(ObjectId);
+opaque_copy_key!(ObjectId);
 opaque!(State);
 
 impl State {
